@@ -416,11 +416,24 @@ def list_once(list_drf, tree, rel, o, reverse, naive=False, gone=()):
     if targets:
         vo = _VanishOS(saved, targets)
         list_drf.os = vo
+    # a naive datetime means UTC in digital_rf, whatever the local time zone of the process is
+    tz_saved = os.environ.get("TZ")
+    if naive:
+        import time as _time
+        list_once.ntz = getattr(list_once, "ntz", 0) + 1
+        os.environ["TZ"] = ["EST5", "XYZ-03:30", "UTC", "NZST-12"][list_once.ntz % 4]
+        _time.tzset()
     try:
         try:
             res = list_drf.lsdrf(path, **kw)
         finally:
             list_drf.os = saved
+            if naive:
+                if tz_saved is None:
+                    os.environ.pop("TZ", None)
+                else:
+                    os.environ["TZ"] = tz_saved
+                _time.tzset()
     except Exception as ex:  # logged, judged by the trace specification
         out = dict(raised=True, res=[], exc="%s: %s" % (type(ex).__name__, ex))
     else:
